@@ -231,7 +231,7 @@ class Translator:
         name = call_name(node)
         if node.keywords:
             raise Refuse("keyword arguments in call %s" % name)
-        args = [self.expr(a, env, sp) for a in node.args] if name not in ("np.round", "round") else None
+        args = [self.expr(a, env, sp) for a in node.args] if name not in ("np.round", "round", "np.array") else None
         if name in ("np.min", "np.max") or name in (".min", ".max"):
             if name.startswith("."):
                 args = [self.expr(node.func.value, env, sp)]
